@@ -138,8 +138,11 @@ def run_problem(prob, method, x0mode, rec, rng, seams):
                         sign = -1.0 if s == "<=" else 1.0
                         got0 = np.asarray(out, dtype=float)
                         if s == "==" and base == "cfun":
-                            sign = 1.0 if abs(float(got0) - diff.v) <= abs(float(got0) + diff.v) else -1.0
-                            eqsign[kind[1]] = sign
+                            # orientation of an equality (h or -h, the solver does not care): read off a value that is clearly
+                            # non-zero and kept - at a nearly converged point h is round-off and says nothing about the sign
+                            if abs(diff.v) > 1e-6 * max(1.0, alg.t.mag):
+                                eqsign[kind[1]] = 1.0 if abs(float(got0) - diff.v) <= abs(float(got0) + diff.v) else -1.0
+                            sign = eqsign.get(kind[1], 1.0)
                         elif s == "==":
                             sign = eqsign.get(kind[1], 1.0)
                         want = sign * (diff.v if base == "cfun" else diff.g)
@@ -645,8 +648,13 @@ COMBOS = [(fam, True, m) for fam in NG.FAMILIES for m in ("auto", "SLSQP", "trus
          [(fam, False, m) for fam in NG.FAMILIES for m in ("auto", "L-BFGS-B", "BFGS", "SLSQP", "trust-constr")]
 
 
+import math as _math
+
+STRIDE = next(p_ for p_ in (7, 11, 13, 17, 19, 23) if _math.gcd(p_, len(COMBOS)) == 1)  # walks through every combination
+
+
 def plan(rng, k):
-    fam, constrained, method = COMBOS[(k * 7) % len(COMBOS)]
+    fam, constrained, method = COMBOS[(k * STRIDE) % len(COMBOS)]
     bounds = method != "BFGS" and rng.random() < 0.7
     return fam, constrained, method, bounds
 
